@@ -7,8 +7,13 @@ peer name can have -- IPv4: plain, `::ffff:a.b.c.d`, `::ffff:hhhh:hhhh`, both wi
 upper-case, with zone `%eth0` / `%1` -- x block_global x block_private x every proxy mode.  Each row is one call of the real
 `Block.client_connected` on a real `connection.Client`; `client.error` is the observation.
 
+Part 1b (exhaustive): IPv6 addresses that embed IPv4 addresses of every class (15 samples) in every standard embedding
+other than IPv4-mapped (6to4, Teredo, NAT64 well-known and local, IPv4-compatible, ISATAP on global / link-local / ULA
+prefixes, low-32-bit in a global prefix) x 4 notations x options x modes: each is an ordinary row (class = registry row of
+the IPv6 address itself), and all addresses of one registry class must get the same decision whatever IPv4 they embed
+(this also binds the rows whose class accepts either outcome, e.g. 2002::/16 whose reachability is N/A).
 Part 2 (Hypothesis): random 32-bit / 128-bit addresses (biased towards registry prefixes and their borders) in the same
-notations.
+notations, and random embedded-IPv4 groups.
 
 Part 3 (wiring, a few rows per shard): the real `ConnectionHandler.handle_client` is run on an asyncio loop with fake
 stream objects and the Block addon answering the client_connected hook: when the oracle says "refuse", the client writer must
@@ -42,7 +47,7 @@ ASSUMPTIONS = [
 LEVEL_TEXT = ("Every registry block is probed at its borders in every notation under every option/mode combination "
               "(exhaustive over that table); arbitrary addresses are sampled.")
 LEVEL_NOTE = "table part exhaustive; the registry transcription is the trusted base"
-QUICK_N, THOROUGH_N = 60_000, 3_000_000
+QUICK_N, THOROUGH_N = 24_000, 3_000_000
 
 MODES = ["regular", "transparent", "socks5", "reverse:https://example.test", "reverse:dns://192.0.2.53",
          "reverse:quic://example.test", "upstream:http://proxy.test:3128", "dns", "wireguard", "tun", "local",
@@ -150,13 +155,13 @@ def check_row(case, ctx):
         blk.client_connected(client)
     except Exception as e:
         ctx.crash(e, prefix="crash:%s" % notname)
-        return
+        return None
     refused = bool(client.error)
     optcls = "g%d,p%d" % (bg, bp)
     if want == "any":
         ctx.cls("unspecified: %s" % cls[0].split(":")[-1])
         ctx.nt((peer, bg, bp, mode))
-        return
+        return refused
     trivial = cls[0] == "global-unicast" and notname == "plain"
     if not trivial:
         ctx.nt((peer, bg, bp, mode), "%s %s %s -> %s" % (cls[0].split(":")[0] if cls[0].startswith("mapped") else
@@ -171,6 +176,50 @@ def check_row(case, ctx):
     elif not refused and want == "refuse":
         ctx.fail("not-refused:%s:%s:%s" % (cls[0], notname, optcls),
                  "peer %s (class %s) mode %s block_global=%s block_private=%s was not refused" % (peer, cls[0], mode, bg, bp))
+    return refused
+
+
+# ------------------------------------------------------------------ IPv6 addresses that embed an IPv4 address
+# Only IPv4-mapped addresses (::ffff:a.b.c.d) stand for their IPv4 address (property text; handled by classify_v6).  Every
+# other embedding is an ordinary IPv6 address whose class is the registry row of the IPv6 address itself, so inside one
+# registry block the decision must not depend on which IPv4 address is embedded.
+V4_SAMPLES = ["0.0.0.0", "10.0.0.1", "127.0.0.1", "169.254.1.1", "172.16.0.1", "192.168.1.1", "100.64.0.1", "192.0.2.1",
+              "8.8.8.8", "1.1.1.1", "93.184.216.34", "192.88.99.1", "224.0.0.1", "240.0.0.1", "255.255.255.255"]
+EMBEDDINGS = {
+    "6to4": lambda v: (0x2002 << 112) | (v << 80) | 1,                                   # 2002:AABB:CCDD::1
+    "6to4-net": lambda v: (0x2002 << 112) | (v << 80),                                   # 2002:AABB:CCDD::
+    "teredo": lambda v: (0x20010000 << 96) | (v << 64) | (0x8000 << 48) | (v ^ 0xFFFFFFFF),  # server + obfuscated client
+    "nat64": lambda v: (0x0064FF9B << 96) | v,                                           # 64:ff9b::a.b.c.d
+    "nat64-local": lambda v: (0x0064FF9B0001 << 80) | v,                                 # 64:ff9b:1::a.b.c.d
+    "v4-compatible": lambda v: v,                                                        # ::a.b.c.d
+    "isatap-global": lambda v: (0x2A0014504001081B << 64) | (0x00005EFE << 32) | v,      # 2a00:1450:4001:81b:0:5efe:a.b.c.d
+    "isatap-global-u": lambda v: (0x2A0014504001081B << 64) | (0x02005EFE << 32) | v,    # ...:200:5efe:a.b.c.d
+    "isatap-link-local": lambda v: (0xFE80 << 112) | (0x00005EFE << 32) | v,             # fe80::5efe:a.b.c.d
+    "isatap-ula": lambda v: (0xFD00 << 112) | (0x00005EFE << 32) | v,                    # fd00::5efe:a.b.c.d
+    "siit-low32-global": lambda v: (0x26064700 << 96) | v,                               # 2606:4700::a.b.c.d
+}
+EMBED_KINDS = sorted(EMBEDDINGS)
+
+
+def check_uniform(case, ctx):
+    """case = ["uni", embedding kind, [IPv4 ints as strings], notation index, block_global, block_private, mode]:
+    every address is judged as an ordinary row, and addresses of one registry class must all get the same decision"""
+    _, kind, v4s, noti, bg, bp, mode = case
+    seen = {}
+    for v in v4s:
+        n = EMBEDDINGS[kind](int(v))
+        row = [6, str(n), noti, bg, bp, mode]
+        refused = check_row(row, ctx)
+        if refused is None:
+            return
+        cname = ri.classify_v6(n)[0]
+        if cname in seen and seen[cname][0] != refused:
+            a, b = seen[cname][1], notations_v6(n)[0][1]
+            ctx.fail("embedded-ipv4-decides:%s:%s" % (kind.split("-")[0], cname),
+                     "%s and %s belong to the same registry class (%s) but block_global=%s block_private=%s mode %s "
+                     "refuses %s" % (a, b, cname, bg, bp, mode, "only the first" if seen[cname][0] else "only the second"))
+        seen.setdefault(cname, (refused, notations_v6(n)[0][1]))
+    ctx.cls("uniformity: %s" % kind)
 
 
 # ------------------------------------------------------------------ part 3: wiring through ConnectionHandler
@@ -282,7 +331,9 @@ def check_wiring(case, ctx):
 def check_case(case, ctx):
     if case and case[0] == "wire":
         return check_wiring(case, ctx)
-    return check_row(case, ctx)
+    if case and case[0] == "uni":
+        return check_uniform(case, ctx)
+    check_row(case, ctx)
 
 
 _v4_prefixes = [ri.v4_int(p) >> (32 - l) << (32 - l) for p, l, *_ in ri.V4]
@@ -298,8 +349,13 @@ def strategy(ctx):
                    st.integers(0, 2 ** 125 - 1).map(lambda x: x | (1 << 125)),
                    st.integers(0, 2 ** 32 - 1).map(lambda x: (0xFFFF << 32) | x))
     addr = st.one_of(v4.map(lambda n: (4, str(n))), v6.map(lambda n: (6, str(n))))
-    return st.tuples(addr, st.integers(0, 5), st.booleans(), st.booleans(), st.sampled_from(MODES)).map(
+    row = st.tuples(addr, st.integers(0, 5), st.booleans(), st.booleans(), st.sampled_from(MODES)).map(
         lambda t: [t[0][0], t[0][1], t[1], t[2], t[3], t[4]])
+    emb_v4 = st.one_of(st.sampled_from([ri.v4_int(x) for x in V4_SAMPLES]), v4)
+    uni = st.tuples(st.sampled_from(EMBED_KINDS), st.lists(emb_v4, min_size=2, max_size=4), st.integers(0, 3),
+                    st.booleans(), st.booleans(), st.sampled_from(MODES)).map(
+        lambda t: ["uni", t[0], [str(x) for x in t[1]], t[2], t[3], t[4], t[5]])
+    return st.one_of(row, st.tuples(row).map(lambda t: t[0]), uni)
 
 
 def run(ctx):
@@ -320,6 +376,20 @@ def run(ctx):
     ctx.exhaustive = True
     ctx.extra["table_rows"] = rows
     ctx.extra["table_addresses"] = len(addrs) if ctx.shard == 0 else 0
+    # embedded IPv4 addresses of every class in every embedding: rows + uniformity inside a registry class
+    samples = [str(ri.v4_int(x)) for x in V4_SAMPLES]
+    j = 0
+    for kind in EMBED_KINDS:
+        for noti in range(4):
+            for bg in (True, False):
+                for bp in (True, False):
+                    for mode in MODES:
+                        j += 1
+                        if j % ctx.nshards != ctx.shard:
+                            continue
+                        ctx.cur_case = ["uni", kind, samples, noti, bg, bp, mode]
+                        ctx.ev()
+                        check_uniform(ctx.cur_case, ctx)
     # wiring: a handful of rows per shard, taken from the table deterministically
     k = 0
     for i, (fam, n) in enumerate(addrs):
